@@ -475,6 +475,9 @@ func Run(sc *Scenario) (res *Result) {
 						f.DupLag = time.Duration(r.Ms) * time.Millisecond
 					case "delay":
 						f.Delay = time.Duration(r.Ms) * time.Millisecond
+					case "stall":
+						// the sender's WriteTo itself takes this long (a busy socket): its output loop holds the output lock meanwhile
+						f.Stall = time.Duration(r.Ms) * time.Millisecond
 					}
 					break
 				}
